@@ -331,7 +331,11 @@ Proof.
   { unfold parse_assign. rewrite split_at_none; [reflexivity|].
     rewrite forallb_app. apply andb_true_iff. split; [reflexivity|].
     apply (forallb_imp _ _ _ (fun c H => eq_trans (f_equal negb (name_char_not_eq c H)) eq_refl) Hc). }
-  rewrite Hpa, strip_prefix_app, Hk. reflexivity.
+  assert (Hps : parse_sq_assign (EXPORT_SP ++ k) = None).
+  { unfold parse_sq_assign. rewrite split_at_none; [reflexivity|].
+    rewrite forallb_app. apply andb_true_iff. split; [reflexivity|].
+    apply (forallb_imp _ _ _ (fun c H => eq_trans (f_equal negb (name_char_not_eq c H)) eq_refl) Hc). }
+  rewrite Hpa, Hps, strip_prefix_app, Hk. reflexivity.
 Qed.
 
 (** C18_tag, general form: a here-document ends at the FIRST line equal to the delimiter and at no
@@ -413,26 +417,43 @@ Proof.
   rewrite !split_lines_app_nl. reflexivity.
 Qed.
 
-(** * What [after_env] is *)
-Lemma after_env_store e s : sh_store (after_env e s) = put_all (map (fun kv => (fst kv, strip_nl (snd kv))) e) (sh_store s).
+(** * What [after_env_with] is *)
+Lemma after_env_store f e s : sh_store (after_env_with f e s) = put_all (map (fun kv => (fst kv, f (snd kv))) e) (sh_store s).
 Proof.
   revert s. induction e as [|[k v] e IH]; intros s; [reflexivity|].
-  unfold after_env in *. cbn [fold_left map]. rewrite IH. reflexivity.
+  unfold after_env_with in *. cbn [fold_left map]. rewrite IH. reflexivity.
 Qed.
-Lemma after_env_effects e s : sh_effects (after_env e s) = sh_effects s.
+Lemma after_env_effects f e s : sh_effects (after_env_with f e s) = sh_effects s.
 Proof.
   revert s. induction e as [|[k v] e IH]; intros s; [reflexivity|].
-  unfold after_env in *. cbn [fold_left]. rewrite IH. reflexivity.
+  unfold after_env_with in *. cbn [fold_left]. rewrite IH. reflexivity.
 Qed.
-Lemma after_env_exported e s k : In k (sh_exported (after_env e s)) <-> In k (map fst e) \/ In k (sh_exported s).
+Lemma after_env_exported f e s k : In k (sh_exported (after_env_with f e s)) <-> In k (map fst e) \/ In k (sh_exported s).
 Proof.
   revert s. induction e as [|[k1 v] e IH]; intros s; [simpl; tauto|].
-  unfold after_env in *. cbn [fold_left map]. rewrite IH. simpl. tauto.
+  unfold after_env_with in *. cbn [fold_left map]. rewrite IH. simpl. tauto.
 Qed.
 
-Lemma map_fst_strip e : map fst (map (fun kv : bytes * bytes => (fst kv, strip_nl (snd kv))) e) = map fst e.
+Lemma map_fst_f (f : bytes -> bytes) e : map fst (map (fun kv : bytes * bytes => (fst kv, f (snd kv))) e) = map fst e.
 Proof. rewrite map_map. reflexivity. Qed.
 
+Lemma after_env_with_spec f e s :
+  NoDup (map fst e) ->
+  sh_effects (after_env_with f e s) = sh_effects s /\
+  (forall k v, In (k, v) e -> lookup k (sh_store (after_env_with f e s)) = Some (f v) /\ In k (sh_exported (after_env_with f e s))) /\
+  (forall k, ~ In k (map fst e) ->
+             lookup k (sh_store (after_env_with f e s)) = lookup k (sh_store s) /\
+             (In k (sh_exported (after_env_with f e s)) <-> In k (sh_exported s))).
+Proof.
+  intro Hnd. split; [apply after_env_effects|]. split.
+  - intros k v Hin. split.
+    + rewrite after_env_store. apply lookup_put_all_in; [rewrite map_fst_f; exact Hnd|].
+      apply (in_map (fun kv => (fst kv, f (snd kv))) _ _ Hin).
+    + apply after_env_exported. left. apply (in_map fst _ _ Hin).
+  - intros k Hni. split.
+    + rewrite after_env_store. apply lookup_put_all_other. rewrite map_fst_f. exact Hni.
+    + rewrite after_env_exported. tauto.
+Qed.
 Lemma after_env_spec e s :
   NoDup (map fst e) ->
   sh_effects (after_env e s) = sh_effects s /\
@@ -440,37 +461,28 @@ Lemma after_env_spec e s :
   (forall k, ~ In k (map fst e) ->
              lookup k (sh_store (after_env e s)) = lookup k (sh_store s) /\
              (In k (sh_exported (after_env e s)) <-> In k (sh_exported s))).
-Proof.
-  intro Hnd. split; [apply after_env_effects|]. split.
-  - intros k v Hin. split.
-    + rewrite after_env_store. apply lookup_put_all_in; [rewrite map_fst_strip; exact Hnd|].
-      apply (in_map (fun kv => (fst kv, strip_nl (snd kv))) _ _ Hin).
-    + apply after_env_exported. left. apply (in_map fst _ _ Hin).
-  - intros k Hni. split.
-    + rewrite after_env_store. apply lookup_put_all_other. rewrite map_fst_strip. exact Hni.
-    + rewrite after_env_exported. tauto.
-Qed.
+Proof. exact (after_env_with_spec strip_nl e s). Qed.
 
 (** * The two builders *)
-Lemma ssh_script_run e tag entry s :
+Lemma ssh_script_heredoc_run e tag entry s :
   tag_ok tag = true ->
   Forall (fun kv => valid_key (fst kv) = true) e ->
   Forall (fun kv => no_tag_line tag (snd kv) = true) e ->
-  sh_run s (ssh_script e tag entry) = sh_run (after_env e s) (entry ++ [NL]).
+  sh_run s (ssh_script_heredoc e tag entry) = sh_run (after_env e s) (entry ++ [NL]).
 Proof.
-  intros Ht Hk Hv. unfold sh_run, ssh_script.
+  intros Ht Hk Hv. unfold sh_run, ssh_script_heredoc.
   rewrite (header_run (env_section true tag e ++ entry ++ [NL]) s).
   rewrite (env_section_run tag e (entry ++ [NL]) s Ht Hk Hv). reflexivity.
 Qed.
 
-Lemma dcmd_script_run e tag pub sec script s :
+Lemma dcmd_script_heredoc_run e tag pub sec script s :
   tag_ok tag = true ->
   Forall (fun kv => valid_key (fst kv) = true) e ->
   Forall (fun kv => no_tag_line tag (snd kv) = true) e ->
-  dcmd_script e tag pub sec = Ok script ->
+  dcmd_script_heredoc e tag pub sec = Ok script ->
   exists tail, cert_tail tag pub sec = Ok tail /\ sh_run s script = sh_run (after_env e s) tail.
 Proof.
-  intros Ht Hk Hv. unfold dcmd_script. destruct (cert_tail tag pub sec) as [t| |]; try discriminate.
+  intros Ht Hk Hv. unfold dcmd_script_heredoc. destruct (cert_tail tag pub sec) as [t| |]; try discriminate.
   intro H. assert (Hs : script = HEADER ++ env_section true tag e ++ t) by congruence. clear H. subst script. exists t. split; [reflexivity|].
   unfold sh_run. rewrite (header_run (env_section true tag e ++ t) s).
   rewrite (env_section_run tag e t s Ht Hk Hv). reflexivity.
@@ -481,14 +493,14 @@ Qed.
 Lemma sh_run_nil s : sh_run s [] = Done s.
 Proof. reflexivity. Qed.
 
-Theorem verbatim_ssh : forall (e : env) (draws : list bytes) (tag entry : bytes) (s : shst),
+Theorem verbatim_heredoc_ssh : forall (e : env) (draws : list bytes) (tag entry : bytes) (s : shst),
   Forall (fun kv => valid_key (fst kv) = true) e ->
   NoDup (map fst e) ->
   Forall (fun kv => no_nul (snd kv) = true) e ->
   Forall (fun t => go_tag t = true) draws ->
   new_eof_tag draws e = Some tag ->
   tag_fresh tag e = true /\
-  sh_run s (ssh_script e tag entry) = sh_run (after_env e s) (entry ++ [NL]) /\
+  sh_run s (ssh_script_heredoc e tag entry) = sh_run (after_env e s) (entry ++ [NL]) /\
   sh_effects (after_env e s) = sh_effects s /\
   (forall k v, In (k, v) e -> lookup k (sh_store (after_env e s)) = Some (strip_nl v) /\ In k (sh_exported (after_env e s))) /\
   (forall k, ~ In k (map fst e) ->
@@ -499,16 +511,16 @@ Proof.
   destruct (new_eof_tag_fresh _ _ _ Htag) as [Hin Hf].
   assert (Ht : tag_ok tag = true) by (apply go_tag_ok; exact (proj1 (Forall_forall _ _) Hd _ Hin)).
   split; [exact Hf|]. split; [|apply after_env_spec; exact Hnd].
-  apply ssh_script_run; [exact Ht|exact Hk|apply tag_fresh_no_tag_line; exact Hf].
+  apply ssh_script_heredoc_run; [exact Ht|exact Hk|apply tag_fresh_no_tag_line; exact Hf].
 Qed.
 
-Theorem verbatim_dcmd : forall (e : env) (tag pub sec script : bytes) (s : shst),
+Theorem verbatim_heredoc_dcmd : forall (e : env) (tag pub sec script : bytes) (s : shst),
   Forall (fun kv => valid_key (fst kv) = true) e ->
   NoDup (map fst e) ->
   Forall (fun kv => no_nul (snd kv) = true) e ->
   go_tag tag = true ->
   Forall (fun kv => no_tag_line tag (snd kv) = true) e ->
-  dcmd_script e tag pub sec = Ok script ->
+  dcmd_script_heredoc e tag pub sec = Ok script ->
   (exists tail, cert_tail tag pub sec = Ok tail /\ sh_run s script = sh_run (after_env e s) tail) /\
   (is_nil pub && is_nil sec = true -> sh_run s script = Done (after_env e s)) /\
   sh_effects (after_env e s) = sh_effects s /\
@@ -519,7 +531,7 @@ Theorem verbatim_dcmd : forall (e : env) (tag pub sec script : bytes) (s : shst)
 Proof.
   intros e tag pub sec script s Hk Hnd _ Hg Hv Hs.
   pose proof (go_tag_ok _ Hg) as Ht.
-  destruct (dcmd_script_run e tag pub sec script s Ht Hk Hv Hs) as (tail & Hc & Hr).
+  destruct (dcmd_script_heredoc_run e tag pub sec script s Ht Hk Hv Hs) as (tail & Hc & Hr).
   split; [exists tail; auto|]. split; [|apply after_env_spec; exact Hnd].
   intro Hnil. unfold cert_tail in Hc. rewrite Hnil in Hc. inversion Hc; subst. rewrite Hr. reflexivity.
 Qed.
@@ -566,7 +578,7 @@ Lemma collision_witness :
   Forall (fun kv => no_nul (snd kv) = true) e /\
   no_tag_line TAGA (TAGA ++ NL :: V_PWN) = false /\
   exists script s,
-    dcmd_script e TAGA [] [] = Ok script /\ sh_run sh0 script = Done s /\
+    dcmd_script_heredoc e TAGA [] [] = Ok script /\ sh_run sh0 script = Done s /\
     In (Exec V_PWN) (sh_effects s) /\
     lookup KEY_A (sh_store s) = Some [] /\ strip_nl (TAGA ++ NL :: V_PWN) <> [].
 Proof.
@@ -598,10 +610,10 @@ Proof.
   split; [left; reflexivity|]. split; [vm_compute; reflexivity|]. vm_compute. discriminate.
 Qed.
 
-(** The same environment through the repaired builder: verbatim (instance of [verbatim_ssh]). *)
+(** The same environment through the repaired builder: verbatim (instance of [verbatim_heredoc_ssh]). *)
 Lemma quoted_example :
   let e := [(KEY_A, V_DHOME); (KEY_B, V_SUBST)] in
-  exists s, sh_run sh0 (ssh_script e TAGA []) = Done s /\
+  exists s, sh_run sh0 (ssh_script_heredoc e TAGA []) = Done s /\
             lookup KEY_A (sh_store s) = Some V_DHOME /\ lookup KEY_B (sh_store s) = Some V_SUBST /\
             existsb is_exec (sh_effects s) = false.
 Proof. cbv zeta. eexists. split; [vm_compute; reflexivity|]. repeat split. Qed.
@@ -610,3 +622,176 @@ Lemma assignment_word k tag s :
   valid_key k = true -> tag_ok tag = true ->
   step_top s (k ++ EQS :: CAT_OPEN ++ delim_word true tag) = (InHere k tag true [], s).
 Proof. intros Hk Ht. apply step_top_assign; [apply valid_key_is_name; exact Hk|exact Ht]. Qed.
+
+(** * CURRENT builders: single-quoted assignment words *)
+
+Lemma split_lines_prefix p X :
+  no_nl p = true ->
+  split_lines (p ++ X) = match split_lines X with l :: ls => (p ++ l) :: ls | [] => [] end.
+Proof.
+  induction p as [|c p IH]; intro H.
+  - simpl. destruct (split_lines X) eqn:E; [exfalso; exact (split_lines_nonempty _ E)|reflexivity].
+  - unfold no_nl in H. simpl in H. apply andb_true_iff in H as [H1 H2]. apply negb_true_iff in H1.
+    cbn [app split_lines]. rewrite H1, (IH H2).
+    destruct (split_lines X) eqn:E; [exfalso; exact (split_lines_nonempty _ E)|reflexivity].
+Qed.
+
+(** sh-unquoting the emitted word yields the value: every byte except ' is copied between the
+    quotes, ' is written '\'' (close, escaped quote, reopen). *)
+Lemma scan_sq_escape v acc rest :
+  scan_word true acc (sq_escape v ++ SQ :: rest) = scan_word false (rev v ++ acc) rest.
+Proof.
+  revert acc. induction v as [|c v IH]; intro acc; [reflexivity|].
+  unfold sq_escape in *. cbn [flat_map]. destruct (N.eqb_spec c SQ) as [->|Hne].
+  - cbn [app scan_word N.eqb SQ BSL Pos.eqb]. rewrite IH. cbn [rev]. rewrite <- app_assoc. reflexivity.
+  - cbn [app scan_word]. apply N.eqb_neq in Hne. rewrite Hne, IH. cbn [rev]. rewrite <- app_assoc. reflexivity.
+Qed.
+
+Lemma quote_roundtrip v : sh_unquote (sq_word v) = Some v.
+Proof.
+  unfold sh_unquote, sq_word. cbn [scan_word N.eqb SQ Pos.eqb].
+  change (sq_escape v ++ [SQ]) with (sq_escape v ++ SQ :: []).
+  rewrite scan_sq_escape. cbn [scan_word]. rewrite app_nil_r, rev_involutive. reflexivity.
+Qed.
+
+(** The line machine inside K='..: by induction on the value, one byte (or one '\'' group) at a time. *)
+Lemma insq_char k c acc X s :
+  (c =? NL) = false -> (c =? SQ) = false ->
+  run_lines (split_lines (c :: X)) (InSQ k acc, s) = run_lines (split_lines X) (InSQ k (c :: acc), s).
+Proof.
+  intros Hn Hq. cbn [split_lines]. rewrite Hn.
+  destruct (split_lines X) as [|l ls] eqn:E; [exfalso; exact (split_lines_nonempty _ E)|].
+  cbn [run_lines fold_left step scan_word]. rewrite Hq. reflexivity.
+Qed.
+Lemma insq_nl k acc X s :
+  run_lines (split_lines (NL :: X)) (InSQ k acc, s) = run_lines (split_lines X) (InSQ k (NL :: acc), s).
+Proof. reflexivity. Qed.
+Lemma insq_quote k acc X s :
+  run_lines (split_lines (SQ :: BSL :: SQ :: SQ :: X)) (InSQ k acc, s) = run_lines (split_lines X) (InSQ k (SQ :: acc), s).
+Proof.
+  change (SQ :: BSL :: SQ :: SQ :: X) with ([SQ; BSL; SQ; SQ] ++ X).
+  rewrite split_lines_prefix by reflexivity.
+  destruct (split_lines X) as [|l ls] eqn:E; [exfalso; exact (split_lines_nonempty _ E)|].
+  reflexivity.
+Qed.
+Lemma insq_close k acc rest s :
+  run_lines (split_lines (SQ :: NL :: rest)) (InSQ k acc, s) = run_lines (split_lines rest) (Top, bind k (rev acc) s).
+Proof. reflexivity. Qed.
+
+Lemma insq_value k v acc rest s :
+  run_lines (split_lines (sq_escape v ++ SQ :: NL :: rest)) (InSQ k acc, s)
+  = run_lines (split_lines rest) (Top, bind k (rev acc ++ v) s).
+Proof.
+  revert acc. induction v as [|c v IH]; intro acc.
+  - cbn [sq_escape flat_map app]. rewrite insq_close, app_nil_r. reflexivity.
+  - unfold sq_escape in *. cbn [flat_map]. destruct (N.eqb_spec c SQ) as [->|Hq].
+    + cbn [app]. rewrite insq_quote, IH. cbn [rev]. rewrite <- app_assoc. reflexivity.
+    + destruct (N.eqb_spec c NL) as [->|Hn].
+      * cbn [app]. rewrite insq_nl, IH. cbn [rev]. rewrite <- app_assoc. reflexivity.
+      * cbn [app]. apply N.eqb_neq in Hq, Hn. rewrite (insq_char _ _ _ _ _ Hn Hq), IH.
+        cbn [rev]. rewrite <- app_assoc. reflexivity.
+Qed.
+
+Lemma parse_assign_sq k l : is_name k = true -> parse_assign (k ++ EQS :: SQ :: l) = None.
+Proof.
+  intro Hk. unfold parse_assign. destruct (is_name_chars _ Hk) as [_ Hc].
+  rewrite (split_at_name _ _ Hc), Hk. reflexivity.
+Qed.
+Lemma parse_sq_assign_sq k l : is_name k = true -> parse_sq_assign (k ++ EQS :: SQ :: l) = Some (k, l).
+Proof.
+  intro Hk. unfold parse_sq_assign. destruct (is_name_chars _ Hk) as [_ Hc].
+  rewrite (split_at_name _ _ Hc), Hk. reflexivity.
+Qed.
+
+Lemma top_sq_open k X s :
+  is_name k = true ->
+  run_lines (split_lines (k ++ EQS :: SQ :: X)) (Top, s) = run_lines (split_lines X) (InSQ k [], s).
+Proof.
+  intro Hk. destruct (is_name_chars _ Hk) as [Hne Hc].
+  change (k ++ EQS :: SQ :: X) with (k ++ [EQS; SQ] ++ X). rewrite app_assoc.
+  rewrite split_lines_prefix.
+  2:{ rewrite no_nl_app, (name_chars_no_nl _ Hc). reflexivity. }
+  destruct (split_lines X) as [|l ls] eqn:E; [exfalso; exact (split_lines_nonempty _ E)|].
+  cbn [run_lines fold_left step]. rewrite <- app_assoc. cbn [app].
+  unfold step_top. rewrite (parse_assign_sq _ _ Hk), (parse_sq_assign_sq _ _ Hk).
+  destruct k; [contradiction|reflexivity].
+Qed.
+
+Lemma env_block_sq_run k v tail s :
+  valid_key k = true ->
+  run_lines (split_lines (env_block_sq (k, v) ++ tail)) (Top, s)
+  = run_lines (split_lines tail) (Top, add_export k (bind k v s)).
+Proof.
+  intro Hk. pose proof (valid_key_is_name _ Hk) as Hn. destruct (is_name_chars _ Hn) as [_ Hc].
+  unfold env_block_sq, sq_word. cbn [fst snd].
+  replace ((k ++ EQS :: (SQ :: sq_escape v ++ [SQ]) ++ NL :: EXPORT_SP ++ k ++ [NL]) ++ tail)
+    with (k ++ EQS :: SQ :: (sq_escape v ++ SQ :: NL :: (EXPORT_SP ++ k) ++ NL :: tail)).
+  2:{ repeat (rewrite <- ?app_assoc; cbn [app]). reflexivity. }
+  rewrite (top_sq_open _ _ _ Hn), insq_value. cbn [rev app].
+  rewrite split_lines_app_nl, split_lines_no_nl.
+  2:{ rewrite no_nl_app, (name_chars_no_nl _ Hc). reflexivity. }
+  cbn [app run_lines fold_left step]. rewrite (step_top_export _ _ Hn). reflexivity.
+Qed.
+
+Lemma env_section_sq_run e tail s :
+  Forall (fun kv => valid_key (fst kv) = true) e ->
+  run_lines (split_lines (env_section_sq e ++ tail)) (Top, s)
+  = run_lines (split_lines tail) (Top, after_env_exact e s).
+Proof.
+  revert s. induction e as [|[k v] e IH]; intros s Hk; [reflexivity|].
+  inversion Hk; subst. unfold env_section_sq in *. cbn [flat_map].
+  rewrite <- app_assoc, env_block_sq_run by assumption.
+  rewrite IH by assumption. reflexivity.
+Qed.
+
+Theorem verbatim_ssh : forall (e : env) (entry : bytes) (s : shst),
+  Forall (fun kv => valid_key (fst kv) = true) e ->
+  NoDup (map fst e) ->
+  Forall (fun kv => no_nul (snd kv) = true) e ->
+  sh_run s (ssh_script e entry) = sh_run (after_env_exact e s) (entry ++ [NL]) /\
+  sh_effects (after_env_exact e s) = sh_effects s /\
+  (forall k v, In (k, v) e -> lookup k (sh_store (after_env_exact e s)) = Some v /\ In k (sh_exported (after_env_exact e s))) /\
+  (forall k, ~ In k (map fst e) ->
+             lookup k (sh_store (after_env_exact e s)) = lookup k (sh_store s) /\
+             (In k (sh_exported (after_env_exact e s)) <-> In k (sh_exported s))).
+Proof.
+  intros e entry s Hk Hnd _. split; [|exact (after_env_with_spec (fun v => v) e s Hnd)].
+  unfold sh_run, ssh_script.
+  rewrite (header_run (env_section_sq e ++ entry ++ [NL]) s), (env_section_sq_run e (entry ++ [NL]) s Hk).
+  reflexivity.
+Qed.
+
+Theorem verbatim_dcmd : forall (e : env) (tag pub sec script : bytes) (s : shst),
+  Forall (fun kv => valid_key (fst kv) = true) e ->
+  NoDup (map fst e) ->
+  Forall (fun kv => no_nul (snd kv) = true) e ->
+  dcmd_script e tag pub sec = Ok script ->
+  (exists tail, cert_tail tag pub sec = Ok tail /\ sh_run s script = sh_run (after_env_exact e s) tail) /\
+  (is_nil pub && is_nil sec = true -> sh_run s script = Done (after_env_exact e s)) /\
+  sh_effects (after_env_exact e s) = sh_effects s /\
+  (forall k v, In (k, v) e -> lookup k (sh_store (after_env_exact e s)) = Some v /\ In k (sh_exported (after_env_exact e s))) /\
+  (forall k, ~ In k (map fst e) ->
+             lookup k (sh_store (after_env_exact e s)) = lookup k (sh_store s) /\
+             (In k (sh_exported (after_env_exact e s)) <-> In k (sh_exported s))).
+Proof.
+  intros e tag pub sec script s Hk Hnd _ Hs.
+  assert (Hrun : exists tail, cert_tail tag pub sec = Ok tail /\ sh_run s script = sh_run (after_env_exact e s) tail).
+  { unfold dcmd_script in Hs. destruct (cert_tail tag pub sec) as [t| |]; try discriminate.
+    assert (Hsc : script = HEADER ++ env_section_sq e ++ t) by congruence. clear Hs. subst script.
+    exists t. split; [reflexivity|]. unfold sh_run.
+    rewrite (header_run (env_section_sq e ++ t) s), (env_section_sq_run e t s Hk). reflexivity. }
+  split; [exact Hrun|]. split; [|exact (after_env_with_spec (fun v => v) e s Hnd)].
+  intro Hnil. destruct Hrun as (tail & Hc & Hr). unfold cert_tail in Hc. rewrite Hnil in Hc.
+  inversion Hc; subst. rewrite Hr. reflexivity.
+Qed.
+
+(** The values that broke the here-document flavours, through the current builders. *)
+Definition V_EACUTE : bytes := [69;195;169].   (* E + e-acute in UTF-8: the dash here-document witness *)
+Lemma sq_example :
+  let e := [(KEY_A, V_DHOME ++ [NL; NL]); (KEY_B, V_SUBST ++ SQ :: TAGA ++ NL :: V_PWN); ([67], V_EACUTE)] in
+  exists s, sh_run sh0 (ssh_script e []) = Done s /\
+            lookup KEY_A (sh_store s) = Some (V_DHOME ++ [NL; NL]) /\
+            lookup KEY_B (sh_store s) = Some (V_SUBST ++ SQ :: TAGA ++ NL :: V_PWN) /\
+            lookup [67] (sh_store s) = Some V_EACUTE /\
+            existsb is_exec (sh_effects s) = false.
+Proof. cbv zeta. eexists. split; [vm_compute; reflexivity|]. repeat split. Qed.
